@@ -204,7 +204,14 @@ def record_lens(task):
             else:
                 rays = G.quiet(o.trace, 0.0, Hy, w, n, name)
                 if name == "random":
-                    P = None
+                    # the named distribution draws from an unseeded generator: its call settles the
+                    # number of points (read below before the second trace); the rays that are judged
+                    # come from the same class with a seed, so that a run can be reproduced
+                    named_count = o.surface_group.x.shape[1]
+                    dist = LR.make_distribution(name, seed=rnd.randrange(1 << 30))
+                    dist.generate_points(n)
+                    rays = G.quiet(o.trace, 0.0, Hy, w, n, dist)
+                    P = (np.array(dist.x, dtype=float), np.array(dist.y, dtype=float))
                 else:
                     ref = LR.make_distribution(name)
                     ref.generate_points(n)
@@ -214,6 +221,9 @@ def record_lens(task):
         out["call"] = call
         return out
     nr = o.surface_group.x.shape[1]
+    if name == "random" and named_count != nr:
+        nr = named_count          # (reported by the count clause)
+        P = None
     if P is not None and len(P[0]) != nr:
         P = None          # the count clause below reports it; pupil points cannot be paired
     pick = sorted(rnd.sample(range(nr), min(nr, nper)))
@@ -260,7 +270,7 @@ def sampling_events(rnd, quick):
         for n in ns:
             if name == "uniform" and n < 2:
                 continue      # one grid point at (-1, -1): an empty sampling (not judged, see assumptions)
-            d = LR.make_distribution(name)
+            d = LR.make_distribution(name, seed=n)       # ('random': seeded, so that the record is reproducible)
             d.generate_points(n)
             evs.append(LR.dist_event(name, n, d.x, d.y))
     for name in GQ:
